@@ -68,7 +68,8 @@ earlier inductive lemma (for the same free constants) as a hypothesis: that is a
                                          with r._lower_bound nan left behind - a C01 matter - and the exit restores -5.0), the undo's
                                          own _check_bounds(old, other bound) passes by the entry invariant lb <= ub, and afterwards
                                          all four views are those of s
-        resettable/functional, resettable/objective_direction   D = one cell, the setter either raises before writing or writes
+        resettable/functional, resettable/objective_direction   (bodies under contract: contracts/c03_knockout_ctx.py `[raise]` keys,
+                                         contracts/c03_direction.py)  D = one cell, the setter either raises before writing or writes
                                          its argument (normalised for the direction: max / min); the raising case leaves s' = s and
                                          the undo (old value: a bool / "max" / "min" by the entry invariant) does not raise
     Natively (26 trials, /var/tmp-style script in the docstring of `_NATIVE`): every raising setter call inside `with model:` was
